@@ -47,6 +47,9 @@
 #include <memory>
 #include <string>
 #include <unordered_map>
+#include <unordered_set>
+#include <cstdlib>
+#include <new>
 #include <utility>
 #include <vector>
 
@@ -170,9 +173,33 @@ static int blobState(const void * self) // 1 moved-from, 0 intact, -1 unknown (n
 
 template <int N> struct BlobAlign { static const int value = (N % 8 == 0) ? 8 : (N % 4 == 0) ? 4 : (N % 2 == 0) ? 2 : 1; };
 
+// a type that allocates itself: its own operator new / operator delete (a pool, an arena, a counting allocator).  Whatever
+// holds such an object on the heap must obtain the memory from the type's operator new exactly when it gives it back to the
+// type's operator delete ("destroys its value like the value itself"); the placement forms are declared because a class-level
+// operator new hides the global placement form
+typedef std::unordered_set<const void *> OwnBlockSet;
+static OwnBlockSet & ownBlocks() { static OwnBlockSet * m = new OwnBlockSet(); return *m; }
+template <bool Own> struct OwnNewBase {};
+template <> struct OwnNewBase<true>
+{
+	static void * operator new(std::size_t n) { void * p = std::malloc(n); if(! p) throw std::bad_alloc(); ownBlocks().insert(p); count("own_operator_new.blocks"); return p; }
+	static void operator delete(void * p) noexcept {
+		if(! p) return;
+		if(ownBlocks().erase(p) == 0) {
+			violation("allocation:object-released-through-its-own-operator-delete-was-not-allocated-by-its-operator-new", "a held object of a type with its own operator new/operator delete is deleted through the type's operator delete, but the memory did not come from the type's operator new");
+			::operator delete(p);
+			return;
+		}
+		std::free(p);
+	}
+	static void * operator new(std::size_t, void * where) noexcept { return where; }
+	static void operator delete(void *, void *) noexcept {}
+};
+
 // NX = false: the move constructor is not declared noexcept (a container that moves "if noexcept" would copy such an object)
-template <int N, bool NX = true>
-struct alignas(BlobAlign<N>::value) Blob
+// ON = true: the type has its own operator new / operator delete
+template <int N, bool NX = true, bool ON = false>
+struct alignas(BlobAlign<N>::value) Blob : OwnNewBase<ON>
 {
 	unsigned char pat[N];
 	explicit Blob(int id) { blobPattern(id, N, pat); blobCtor(this, id, N); }
@@ -184,6 +211,7 @@ struct alignas(BlobAlign<N>::value) Blob
 	long long observe() const { return blobObserve(this, pat, N); }
 };
 static_assert(sizeof(Blob<1>) == 1 && sizeof(Blob<16>) == 16 && sizeof(Blob<17>) == 17 && sizeof(Blob<88>) == 88, "sizeof(Blob<N>) must be N");
+static_assert(sizeof(Blob<16, true, true>) == 16 && sizeof(Blob<17, true, true>) == 17, "sizeof(Blob<N>) must be N (empty base)");
 static_assert(alignof(Blob<17>) == 1 && alignof(Blob<16>) == 8 && alignof(Blob<12>) == 4 && alignof(Blob<6>) == 2, "Blob alignment");
 
 static_assert(! std::is_nothrow_move_constructible<Blob<8, false> >::value && std::is_nothrow_move_constructible<Blob<8> >::value, "Blob<N,false> must have a throwing move constructor");
@@ -243,10 +271,11 @@ template <typename T> struct Tr;
 
 template <typename T> struct VariantOf { static const int value = 0; };
 template <int N> struct VariantOf<Blob<N, false> > { static const int value = 1; };
+template <int N> struct VariantOf<Blob<N, true, true> > { static const int value = 2; };
 static std::string typeName(int cls, int size, int variant)
 {
 	switch(cls) {
-	case TC_BLOB: return "Blob<" + num(size) + (variant ? ",throwing-move>" : ">");
+	case TC_BLOB: return "Blob<" + num(size) + (variant == 1 ? ",throwing-move>" : variant == 2 ? ",own-operator-new>" : ">");
 	case TC_POD: return "Pod<" + num(size) + ">";
 	case TC_NEST: return "Nest";
 	case TC_INT: return "int";
@@ -258,13 +287,13 @@ static std::string typeName(int cls, int size, int variant)
 	}
 }
 
-template <int N, bool NX> struct Tr<Blob<N, NX> >
+template <int N, bool NX, bool ON> struct Tr<Blob<N, NX, ON> >
 {
 	static const int cls = TC_BLOB; static const bool copyable = true;
-	static Blob<N, NX> make(int id) { return Blob<N, NX>(id); }
-	static long long fp(const Blob<N, NX> & v) { return v.observe(); }
-	static int srcState(const Blob<N, NX> & v) { return blobState(&v); }
-	static long shares(const Blob<N, NX> &) { return -1; }
+	static Blob<N, NX, ON> make(int id) { return Blob<N, NX, ON>(id); }
+	static long long fp(const Blob<N, NX, ON> & v) { return v.observe(); }
+	static int srcState(const Blob<N, NX, ON> & v) { return blobState(&v); }
+	static long shares(const Blob<N, NX, ON> &) { return -1; }
 };
 template <> struct Tr<Nest>
 {
@@ -353,7 +382,8 @@ static TL<Blob<(int)I + 1>..., int, std::string, UPtr, SPtr,
 	SBox<(Cap < 24 ? 24 : Cap)>, SBox<(Cap < 24 ? 24 : Cap) + 8>,
 	Blob<8, false>, Blob<(Cap < 16 ? 16 : Cap) + 8, false>,                   // copyable, move constructor not noexcept: inline and on the heap
 	Pod<8>, Pod<(Cap < 16 ? 16 : Cap) + 8>, Pod<(Cap < 16 ? 16 : Cap) + 16>,  // trivially destructible: inline, and two different ones on the heap
-	Nest >                                                                     // initializer_list constructor accepting itself
+	Nest,                                                                      // initializer_list constructor accepting itself
+	Blob<8, true, true>, Blob<(Cap < 16 ? 16 : Cap), true, true>, Blob<(Cap < 16 ? 16 : Cap) + 1, true, true>, Blob<(Cap < 16 ? 16 : Cap) + 40, true, true> > // own operator new/delete: inline, at the capacity, one past it, far beyond
 	makeTypeList(std::index_sequence<I...>);
 
 template <int Cap> struct TypesOf { typedef decltype(makeTypeList<Cap>(std::make_index_sequence<Cap + 24>())) Type; };
@@ -1103,6 +1133,7 @@ static void runCap(uint64_t caseNo, Rng & rng)
 	static const std::vector<OpsRow<Cap> > table = makeTable<Cap>(typename TypesOf<Cap>::Type(), std::make_index_sequence<TypesOf<Cap>::Type::size>());
 	ledger().resetCase();
 	if(! blobMap().empty()) blobMap().clear(); // leftovers of a case that ended in a violation
+	if(! ownBlocks().empty()) ownBlocks().clear();
 	const bool exhaustive = ctx().mode == "exhaustive";
 	uint64_t h;
 	bool nontrivial;
@@ -1118,6 +1149,8 @@ static void runCap(uint64_t caseNo, Rng & rng)
 	if(! caseHasViolation()) {
 		if(ledger().liveCount(K_PAYLOAD) != 0 || ! blobMap().empty())
 			violation("lifetime:payload-leaked-after-destruction", num(ledger().liveCount(K_PAYLOAD)) + " held object(s) alive after every AnyData and the queue were destroyed");
+		else if(! ownBlocks().empty())
+			violation("allocation:block-from-the-type's-own-operator-new-never-given-back-to-its-operator-delete", num((long long)ownBlocks().size()) + " block(s) obtained from a held type's own operator new were not released through its operator delete");
 	}
 	count((std::string("cap.") + num(Cap)).c_str());
 	Fnv f; f.addu(h); f.addu((uint64_t)Cap);
